@@ -3,7 +3,7 @@ import json
 import random
 
 import stream as st
-from vlib import Report, ToolError, build_harness, log
+from vlib import Report, ToolError, build_harness, log, apalache_inductive
 
 ENC_ACTIONS = ["ReadFirst", "ReadNext", "Seal", "Write", "Flush"]
 ENC_FAULT_ACTIONS = ["ReadFail", "WriteFail", "FlushFail"]
@@ -437,6 +437,7 @@ def c04(pid, tier, seed, selftest=False):
                          st.dec_constants(cs=2, src="Src21", hdr="HdrSmall", edits=1, shorts=0, splits=0,
                                           variant="NoEofProbe"),
                          st.DEC_INVARIANTS, ["AcceptMeansComplete"])
+        apalache_inductive(rep, pid, "DecLoopInd")
     scenarios = []
     scenarios += dec_from_model(rep, pid, "sched", st.dec_constants(cs=2, src="Src21", hdr="HdrNone", edits=1, faults=1,
                                                                     splits=1, shorts=1),
@@ -590,12 +591,13 @@ def c11(pid, tier, seed, selftest=False):
     rep.add_model("terms", tres, "byte-layout templates")
     thorough = tier == "thorough"
     check_model(rep, pid, "enc-mc", "MC_EncLoop", st.enc_constants(cs=2, maxlen=9 if thorough else 7, hdr="HdrSmall"),
-                st.ENC_INVARIANTS, ENC_ACTIONS)
+                st.ENC_INVARIANTS + ["ProjIndInv"], ENC_ACTIONS)
     check_model(rep, pid, "dec-mc", "MC_DecLoop", st.dec_constants(cs=2, src="Src322", hdr="HdrSmall", edits=0),
                 st.DEC_INVARIANTS, DEC_ACTIONS)
     if thorough or selftest:
         negative_variant(rep, pid, "neg-ReadAllFirst", "MC_EncLoop",
                          st.enc_constants(cs=2, maxlen=7, hdr="HdrSmall", variant="ReadAllFirst"), st.ENC_INVARIANTS, ["Lag"])
+        apalache_inductive(rep, pid, "EncLoopInd")
     MiB = 1 << 20
     scenarios = []
     # small scope: chunk size 4; any length-proportional buffer crosses the bound (1 MiB + 32 B) ... the
